@@ -166,7 +166,7 @@ def counting(ctx):
         ctx.bad("C19.R1", f, lp, "the skip-ahead model no longer resets the "
                 "current run at a fiber boundary", text_="SkipAhead fiber reset")
     f = ctx.func(IX + "LeaderFollowerIntersector.addTraces")
-    src = " ".join(text(s) for s in f.body).replace(" ", "")
+    src = "\n".join(text(s) for s in f.body).replace(" ", "")
     dec = [n for n in f.own_nodes() if isinstance(n, ast.AugAssign)
            and text(n.target) == "new_intersects" and isinstance(n.op, ast.Sub)
            and text(n.value) == "1"]
